@@ -7,8 +7,10 @@ package main
 import (
 	"fmt"
 	"go/ast"
+	"go/token"
 	"go/types"
 	"math/rand"
+	"strconv"
 	"strings"
 
 	"golang.org/x/tools/go/ssa"
@@ -455,7 +457,9 @@ func ruleOrderSemantics(r *Repo) (bad []string, und string, n int) {
 	type gr struct {
 		name  string
 		build func(fm *frontModel)
+		marks map[string]rune // rule → the character only its function reads; 0: the rule has no function
 	}
+	ti := loadTemplate(r)
 	rule := func(fm *frontModel, name string, body func()) {
 		fm.call("AddRule", name)
 		body()
@@ -465,7 +469,7 @@ func ruleOrderSemantics(r *Repo) (bad []string, und string, n int) {
 		{"A <- 'a' B ; B <- 'b'", func(fm *frontModel) {
 			rule(fm, "A", func() { fm.call("AddCharacter", "a"); fm.call("AddName", "B"); fm.call("AddSequence") })
 			rule(fm, "B", func() { fm.call("AddCharacter", "b") })
-		}},
+		}, map[string]rune{"A": 'a', "B": 'b'}},
 		{"A <- <'a'> {act} U ; B <- {act2} A  (capture, actions, undefined U, unused B)", func(fm *frontModel) {
 			rule(fm, "A", func() {
 				fm.call("AddCharacter", "a")
@@ -476,13 +480,36 @@ func ruleOrderSemantics(r *Repo) (bad []string, und string, n int) {
 				fm.call("AddSequence")
 			})
 			rule(fm, "B", func() { fm.call("AddAction", "_ = 1"); fm.call("AddName", "A"); fm.call("AddSequence") })
-		}},
+		}, nil},
 		{"A <- B C ; C <- 'c' ; B <- {act} ; A <- 'x'  (a duplicate definition)", func(fm *frontModel) {
 			rule(fm, "A", func() { fm.call("AddName", "B"); fm.call("AddName", "C"); fm.call("AddSequence") })
 			rule(fm, "C", func() { fm.call("AddCharacter", "c") })
 			rule(fm, "B", func() { fm.call("AddAction", "_ = 2") })
 			rule(fm, "A", func() { fm.call("AddCharacter", "x") })
-		}},
+		}, nil},
+		{"S <- A B C U ; A <- 'a' ; A <- 'z' ; B <- 'b' ; C <- 'c' ; D <- 'd'  (a duplicate in the middle, an undefined and an unused rule)", func(fm *frontModel) {
+			rule(fm, "S", func() {
+				fm.call("AddName", "A")
+				fm.call("AddName", "B")
+				fm.call("AddSequence")
+				fm.call("AddName", "C")
+				fm.call("AddSequence")
+				fm.call("AddName", "U")
+				fm.call("AddSequence")
+			})
+			rule(fm, "A", func() { fm.call("AddCharacter", "a") })
+			rule(fm, "A", func() { fm.call("AddCharacter", "z") })
+			rule(fm, "B", func() { fm.call("AddCharacter", "b") })
+			rule(fm, "C", func() { fm.call("AddCharacter", "c") })
+			rule(fm, "D", func() { fm.call("AddCharacter", "d") })
+		}, map[string]rune{"A": 'a', "B": 'b', "C": 'c', "D": 0, "U": 0}},
+		{"S <- A B ; A <- 'a' ; A <- 'y' ; A <- 'z' ; B <- 'b' {act}  (two dropped definitions, an action rule behind them)", func(fm *frontModel) {
+			rule(fm, "S", func() { fm.call("AddName", "A"); fm.call("AddName", "B"); fm.call("AddSequence") })
+			rule(fm, "A", func() { fm.call("AddCharacter", "a") })
+			rule(fm, "A", func() { fm.call("AddCharacter", "y") })
+			rule(fm, "A", func() { fm.call("AddCharacter", "z") })
+			rule(fm, "B", func() { fm.call("AddCharacter", "b"); fm.call("AddAction", "_ = 3"); fm.call("AddSequence") })
+		}, map[string]rune{"A": 'a', "B": 'b'}},
 	}
 	for _, g := range cases {
 		func() {
@@ -496,6 +523,11 @@ func ruleOrderSemantics(r *Repo) (bad []string, und string, n int) {
 				}
 			}()
 			fm := newFrontModel(r)
+			if len(g.marks) > 0 {
+				fm.call("AddPackage", "p")
+				fm.call("AddPeg", "P")
+				fm.call("AddState", "")
+			}
 			g.build(fm)
 			em := fm.m.runFull(rg)
 			if em.Err != "" {
@@ -516,6 +548,54 @@ func ruleOrderSemantics(r *Repo) (bad []string, und string, n int) {
 				}
 			}
 			n++
+			// the emitted table itself: the entry at the index of constant rule<N> is the function of N
+			// (each rule of these grammars reads a character of its own), or nil where N has no function
+			if len(g.marks) > 0 {
+				gf, errs := assemble(r, ti, fm.m, em, "ruleorder")
+				if len(errs) > 0 || gf == nil {
+					und = g.name + ": the generated file does not type-check: " + clip(strings.Join(errs, "; "), 200)
+					return
+				}
+				for i, nm := range names {
+					mark, has := g.marks[nm]
+					var fl *ast.FuncLit
+					if i+1 < len(gf.rules) {
+						fl = gf.rules[i+1]
+					}
+					if !has {
+						continue
+					}
+					if mark == 0 {
+						if fl != nil {
+							bad = append(bad, fmt.Sprintf("%s: the table has a function at the index of rule%s, which has none", g.name, nm))
+						}
+						continue
+					}
+					if fl == nil {
+						bad = append(bad, fmt.Sprintf("%s: the table entry at the index of constant rule%s is nil: Parse(rule%s) and every call of %s fail", g.name, nm, nm, nm))
+						continue
+					}
+					found := map[rune]bool{}
+					ast.Inspect(fl, func(x ast.Node) bool {
+						if bl, ok := x.(*ast.BasicLit); ok && bl.Kind == token.CHAR {
+							if v, err := strconv.Unquote(bl.Value); err == nil {
+								for _, c := range v {
+									found[c] = true
+								}
+							}
+						}
+						return true
+					})
+					if !found[mark] {
+						bad = append(bad, fmt.Sprintf("%s: the table entry at the index of constant rule%s is not the function of %s (it does not read %q)", g.name, nm, nm, mark))
+					}
+				}
+				for i := len(names) + 1; i < len(gf.rules); i++ {
+					if gf.rules[i] != nil {
+						bad = append(bad, fmt.Sprintf("%s: the table has a function at index %d, beyond the last rule constant", g.name, i))
+					}
+				}
+			}
 			if strings.Join(names, " ") != strings.Join(listed, " ") {
 				bad = append(bad, fmt.Sprintf("%s: RuleNames is [%s], the rule nodes of the tree are [%s]: rule constants and table indices diverge", g.name, strings.Join(names, " "), strings.Join(listed, " ")))
 			}
